@@ -493,3 +493,11 @@ def w_match_inherit(ops, rng, n):
             po.match(d)
         if rng.random() < 0.2:
             po.match({'baseURL': 'not a url', 'pathname': '/x'})
+        # STRING inputs with a base string: the input is resolved against the base FIRST (a same-scheme "https:page" is a
+        # relative reference; an unusable base fails the call whatever the input is)
+        for _ in range(rng.choice([1, 2])):
+            b = rng.choice(INH_BASES + ['not a url', '', 'https://example.com/dir/index.html', 'file://server/share/x'])
+            scheme = b.split(':')[0] if ':' in b else 'https'
+            inp = rng.choice([scheme + ':page.html', scheme + ':/root.html', scheme + ':', 'https:page.html', 'http:page', 'file:hosts', 'other:page',
+                              'https://abs.example/p?q#f', '//net.example/p', '/abs', 'rel', '?only', '#frag', '', '..', scheme.upper() + ':x'])
+            po.match(inp, b)
